@@ -120,7 +120,7 @@ func statusCode(s pcs.TcbComponentStatus) uint64 {
 	case pcs.TcbComponentStatusRevoked:
 		return 6
 	}
-	return 7 // zero value / unknown (only reachable for undecoded levels)
+	return 6 // zero value (tcbStatus member absent): not UpToDate; the model has seven statuses, so it is given as the last one
 }
 
 func compsSexp(cs []pcs.TcbComponent) core.Sexp {
